@@ -450,9 +450,23 @@ class _cs(spmatrix):
     def __setitem__(self, key, val):
         raise core.Unsupported("sparse __setitem__")
 
+    def _extreme(self, axis, pick):
+        if axis is not None:
+            raise core.Unsupported("sparse min/max along an axis")
+        vals = [v for row in dense_terms(self) for v in row]      # implicit zeros take part, as in scipy
+        if not vals:
+            raise ValueError("zero-size array to reduction operation")
+        best = vals[0]
+        for v in vals[1:]:
+            if pick(v, best):
+                best = v
+        return best
+
     def min(self, axis=None):
-        raise core.Unsupported("sparse min")
-    max = min
+        return self._extreme(axis, lambda a, b: bool(a < b))
+
+    def max(self, axis=None):
+        return self._extreme(axis, lambda a, b: bool(a > b))
 
 
 class csr_matrix(_cs):
